@@ -8,6 +8,7 @@ import SlugModel.Pack
 import SlugModel.Bundle
 import SlugModel.Sanitise
 import SlugModel.ManifestWrite
+import SlugModel.Registry
 /-!
 Line-protocol driver: one request per line on stdin, one answer per line on stdout.
 Fields are separated by single spaces; every string is `x<hex of UTF-8 bytes>`.
@@ -501,6 +502,60 @@ def handleSanitise (toks : List String) : String :=
     | _, _, _ => "not-utf8"
   | _ => "bad-op"
 
+
+-- ---------- registry addresses ----------
+
+/-- oracle table entry `x<q>=x<pkg>:x<subdir>` or `x<q>=-` -/
+def decRegEntry (s : String) : Option (Str × Option (Str × Str)) :=
+  match s.splitOn "=" with
+  | [q, "-"] => do pure (← decStr q, none)
+  | [q, v] =>
+    match v.splitOn ":" with
+    | [a, b] => do pure (← decStr q, some (← decStr a, ← decStr b))
+    | _ => none
+  | _ => none
+
+def encRegRes2 (r : RegRes (Str × Str)) : String :=
+  match r with
+  | .ok (a, b) => "ok:" ++ encStr a ++ ":" ++ encStr b
+  | .err => "err"
+  | .panic => "panic"
+
+def encRegRes3 (r : RegRes (Str × Str × Str)) : String :=
+  match r with
+  | .ok (a, b, c) => "ok:" ++ encStr a ++ ":" ++ encStr b ++ ":" ++ encStr c
+  | .err => "err"
+  | .panic => "panic"
+
+def encDispatch (d : Dispatch) : String :=
+  match d with
+  | .reject => "reject"
+  | .local => "local"
+  | .registry => "registry"
+  | .remote => "remote"
+
+/-- `reg ask <s>` → the strings the model needs the libraries' answers for;
+`reg eval <s> <table> <ver-answer>` → parseRegistry parseFinalRegistry dispatch dispatchFinal -/
+def handleReg (toks : List String) : String :=
+  match toks with
+  | ["ask", g] =>
+    match decStr g with
+    | none => "not-utf8"
+    | some g =>
+      let (qs, v) := regQuestions g
+      String.intercalate "," (qs.map encStr) ++ " " ++ encStr v
+  | ["eval", g, tab, va] =>
+    match decStr g, (splitNE tab ",").mapM decRegEntry with
+    | some g, some entries =>
+      let vans : Option Str := if va = "-" then none else decStr va
+      let o : RegOracle :=
+        { regParse := fun q => (entries.find? (·.1 = q)).bind (·.2),
+          verParse := fun q => if q = (regQuestions g).2 then vans else none }
+      encRegRes2 (parseRegistrySource o g) ++ " " ++ encRegRes3 (parseFinalRegistrySource o g) ++ " " ++
+        encDispatch (dispatchSource o g) ++ " " ++ encDispatch (dispatchFinalSource o g)
+    | _, _ => "not-utf8"
+  | _ => "bad-op"
+
 def handle (line : String) : String :=
   match (line.trimAscii.toString.splitOn " ") with
   | "paths" :: fn :: rest =>
@@ -518,6 +573,7 @@ def handle (line : String) : String :=
   | "remote" :: rest => handleRemote rest
   | "pack" :: rest => handlePack rest
   | "bundle" :: rest => handleBundle rest
+  | "reg" :: rest => handleReg rest
   | "sanitise" :: rest => handleSanitise rest
   | "ignore" :: rest =>
     match rest.mapM decStr with
